@@ -843,11 +843,23 @@ func runTxFlow(c *Case) ([]Obs, any) {
 				return Obs{OK}
 			case "restart":
 				f.node.VerifBlocks().Save(ctx)
+				saved := map[bitcoin.Hash32]time.Time{}
+				for _, e := range f.node.VerifTxs().VerifUnconfirmed() {
+					saved[e.TxID] = e.Time
+				}
 				if err := f.node.VerifTxs().Save(ctx); err != nil {
 					return Obs{ERR}
 				}
 				f.boot(0)
 				f.normaliseMemPool()
+				// the first-seen times are stored to the millisecond: the restarted node measures the safe delay from them
+				for _, e := range f.node.VerifTxs().VerifUnconfirmed() {
+					if t0, ok := saved[e.TxID]; ok {
+						if d := t0.Sub(e.Time); d < -time.Millisecond || d > time.Millisecond {
+							return Obs{3, tu.ID(&e.TxID), int64(d / time.Millisecond)}
+						}
+					}
+				}
 				return Obs{OK}
 			case "gettx":
 				tx, err := f.node.GetTx(ctx, tu.HashOf(op.Int(0)))
